@@ -104,3 +104,5 @@ LEVEL = {
 CFG['rule'] = CFG['rule'] + ' ' + 'Additions: every sixth history uses a pool of 60-110 points (a collection larger than every search window, with id pre-filters between limit and window size) and every fourth euclidean history builds a chain-shaped graph; on dot / cosine indexes one update in three sets a vector at index distance exactly 0 from the stored one without being equal to it (orthogonal, zero, dot product 1 where exact in float32) or the stored vector again; update requests may name one point twice ([remove vec],[set vec]; in every third history also the known-finding order [set vec],[remove vec], tagged XNote 777).'
 
 CFG['rule'] = CFG['rule'] + ' ' + 'Graph histories with a trainable quantiser (learned binary, product; thresholds 0..9) start with a scripted prefix so that the training happens inside the history: a few points below the threshold, a batch that crosses it, removal of the vector field of one early point, delete of another; later update batches remove the vector field of a random stored point one time in three. Every step carries one query whose pre-filter selects every id of the pool (live points without the vector field, deleted points and re-used node ids must not come back through it).'
+
+CFG['rule'] = CFG['rule'] + ' ' + 'Delete batches of the graph profile remove, one time in three, everything but one or two random survivors in one batch.'
